@@ -15,7 +15,7 @@ Proof. intros t H. lia. Qed.
 (* a terminal that accepts the connection and never answers the registration: the old connect never returned;
    in the model that is a deadline that is never reached, i.e. no deadline at all *)
 Definition silent_world : world :=
-  {| w_conns := []; w_scripts := [{| cs_refused := false; cs_chunks := []; cs_close := false |}]; w_cur := None; w_now := 0; w_log := [] |}.
+  {| w_conns := []; w_scripts := [{| cs_refused := false; cs_chunks := []; cs_close := false; cs_silent := false |}]; w_cur := None; w_now := 0; w_log := [] |}.
 Definition any_cfg : config :=
   {| c_serial := []; c_terminal_id := []; c_currency := 978; c_amount := 1; c_read_card_timeout := 15; c_password := 0; c_max := 1 |}.
 (* with a deadline the attempt ends AT the deadline, whatever it is: there is no finite time at which it ends by itself *)
